@@ -24,7 +24,8 @@ import (
 // Go struct types must exist at compile time, so the stream works over a fixed family of
 // hand-written struct types (pointer and value fields, nested structs by value and by pointer,
 // slices and maps of scalars and of structs, `any`, json tags that differ from the field names,
-// clashing tags, fields without tag, unexported fields) and generates, over them, random schemas
+// clashing tags, fields without tag, unexported fields, one property name at several levels with
+// different pointer-ness) and generates, over them, random schemas
 // (which fields are properties and under which ID, required / default / required_if /
 // required_if_not / conflicts, treat-empty-as-default, disabled, properties without a field,
 // properties on unexported fields, mismatched property types, pointer-typed T, typed objects and
@@ -137,6 +138,43 @@ type zmGoS struct {
 	Speed int64  `json:"speed"`
 }
 
+// one property name (`limits`) at several levels with different pointer-ness: whether a sub-object is
+// filled in from its defaults is decided with the field table of the struct that OWNS the property
+// (expandSubObjectDefaultValues), and an absent block without defaults below it stays absent
+type zmLim struct {
+	Max  int64  `json:"max"`
+	Min  *int64 `json:"min"`
+	Unit string `json:"unit"`
+}
+
+type zmBoxV struct { // `limits` on a plain field
+	Limits zmLim   `json:"limits"`
+	Label  *string `json:"label"`
+}
+
+type zmBoxP struct { // `limits` behind a pointer
+	Limits *zmLim  `json:"limits"`
+	Label  *string `json:"label"`
+}
+
+type zmOuterP struct { // `limits` behind a pointer, below it (by value) on a plain field
+	Limits *zmLim  `json:"limits"`
+	Box    zmBoxV  `json:"box"`
+	Name   *string `json:"name"`
+}
+
+type zmOuterV struct { // the mirror image
+	Limits zmLim   `json:"limits"`
+	Box    zmBoxP  `json:"box"`
+	Name   *string `json:"name"`
+}
+
+type zmNest struct { // three levels: pointer, plain (outer.limits), pointer (outer.box.limits)
+	Limits *zmLim   `json:"limits"`
+	Outer  zmOuterV `json:"outer"`
+	Name   *string  `json:"name"`
+}
+
 type zmType struct {
 	rt    reflect.Type
 	build func(id string, props map[string]*schema.PropertySchema, ptr bool) *schema.ObjectSchema
@@ -216,10 +254,11 @@ func zmReg[T any]() *zmType {
 }
 
 var zmTypes = []*zmType{zmReg[zmTop](), zmReg[zmMid](), zmReg[zmInner](), zmReg[zmVals](), zmReg[zmPtrs](), zmReg[zmDup](),
+	zmReg[zmOuterP](), zmReg[zmOuterV](), zmReg[zmNest](), zmReg[zmBoxV](), zmReg[zmBoxP](), zmReg[zmLim](),
 	zmReg[zmCircle](), zmReg[zmSquare](), zmReg[zmStop](), zmReg[zmGo](), zmReg[zmStopS](), zmReg[zmGoS]()}
 
-// zmRoots: the first six are used as roots of generated groups
-const zmRoots = 6
+// zmRoots: the first nine are used as roots of generated groups
+const zmRoots = 9
 
 func zmLookup(rt reflect.Type) *zmType {
 	for _, z := range zmTypes {
@@ -2214,7 +2253,9 @@ func smFixed(s *sink, g *hx.Gen, q *smGen) {
 	circle := func() *sTy {
 		return obj(reflect.TypeOf(zmCircle{}), false, np("r", &sProp{Ty: intT(), Required: true}), np("label", &sProp{Ty: str()}))
 	}
-	square := func() *sTy { return obj(reflect.TypeOf(zmSquare{}), false, np("s", &sProp{Ty: intT(), Required: true})) }
+	square := func() *sTy {
+		return obj(reflect.TypeOf(zmSquare{}), false, np("s", &sProp{Ty: intT(), Required: true}))
+	}
 	signalRaws := []*hx.Val{
 		hx.StrAny(kv("kind", hx.Str("0")), kv("reason", hx.Str("r"))),
 		hx.StrAny(kv("kind", hx.Int("int64", 0))),
@@ -2294,6 +2335,285 @@ func smFixed(s *sink, g *hx.Gen, q *smGen) {
 }
 
 // ---------------------------------------------------------------------------------------------
+// planted family: defaults of nested sub-objects (applySubObjectDefaultValues)
+//
+// Two things the free generator hardly ever lines up. (A) One property name at two levels with different
+// pointer-ness: `limits` behind a pointer in the outer struct and on a plain field of a by-value struct below
+// it (and the mirror image, and three levels), the inner object with defaults whose zero value is invalid,
+// nothing declared in between, the block in between absent from the input: the inner defaults must appear
+// (pointer-ness is looked up in the field table of the struct that owns the property). (B) An absent by-value
+// block with NO default anywhere below it stays absent: an optional block with a required member may be left
+// out, a required block with only optional members may not, and sibling rules (required_if, required_if_not,
+// conflicts) that name the block see it as absent. Every input carries its expected verdict (and, for A, the
+// expected field values): a deviation of the implementation is a finding of its own, next to the comparison
+// with the model.
+
+type smExpect struct {
+	verdict string            // "ok" / "err"
+	path    []string          // of the error, when err (nil = not checked)
+	fields  map[string]string // dotted field path -> fmt.Sprint of the expected value ("<nil>" for a nil pointer)
+}
+
+type smPlantedCase struct {
+	raw    *hx.Val
+	expect smExpect
+}
+
+func smField(x any, path string) (string, bool) {
+	v := reflect.ValueOf(x)
+	for _, name := range strings.Split(path, ".") {
+		for v.Kind() == reflect.Pointer || v.Kind() == reflect.Interface {
+			if v.IsNil() {
+				return "<nil>", true
+			}
+			v = v.Elem()
+		}
+		if v.Kind() != reflect.Struct {
+			return "", false
+		}
+		v = v.FieldByName(name)
+		if !v.IsValid() {
+			return "", false
+		}
+	}
+	if v.Kind() == reflect.Pointer {
+		if v.IsNil() {
+			return "<nil>", true
+		}
+		v = v.Elem()
+	}
+	return fmt.Sprint(v.Interface()), true
+}
+
+// which: the family (0..smNestedFamilies-1), or -1 for a random one
+const smNestedFamilies = 12
+
+func groupNestedDefaults(s *sink, g *hx.Gen, q *smGen, which int) {
+	r := &smRunner{s: s, q: q}
+	q.illFormed = map[string]bool{}
+	q.faithful = false
+	kv := func(k string, v *hx.Val) [2]*hx.Val { return [2]*hx.Val{hx.Str(k), v} }
+	str := func() *sTy { return &sTy{T: "leaf", Ty: &hx.Ty{T: "str"}} }
+	intT := func() *sTy { return &sTy{T: "leaf", Ty: &hx.Ty{T: "int"}} }
+	intMin1 := func() *sTy { return &sTy{T: "leaf", Ty: &hx.Ty{T: "int", Min: hx.IntP(1)}} }
+	obj := func(z any, props ...sNamedProp) *sTy {
+		q.nextID++
+		return &sTy{T: "sobj", ID: fmt.Sprintf("N%d", q.nextID), St: describeStruct(reflect.TypeOf(z)), Props: props}
+	}
+	np := func(name string, p *sProp) sNamedProp { return sNamedProp{Name: name, P: p} }
+	wrap := func(t *sTy) *sTy { // (a scope-wrapped sub-object is not expanded at all: kept out of this family)
+		return t
+	}
+	dflt := int64(2 + g.R.Intn(8))
+	unit := []string{"ms", "s", "B"}[g.R.Intn(3)]
+	// the leaf object, three flavours
+	limDefaults := func() *sTy {
+		ps := []sNamedProp{np("max", &sProp{Ty: intMin1(), Default: hx.MkDefault(fmt.Sprint(dflt))})}
+		if q.p(0.6) {
+			ps = append(ps, np("unit", &sProp{Ty: str(), Default: hx.MkDefault(fmt.Sprintf("%q", unit))}))
+		}
+		if q.p(0.5) {
+			ps = append(ps, np("min", &sProp{Ty: intT()}))
+		}
+		return obj(zmLim{}, ps...)
+	}
+	limRequired := func() *sTy {
+		ps := []sNamedProp{np("max", &sProp{Ty: intT(), Required: true})}
+		if q.p(0.5) {
+			ps = append(ps, np("min", &sProp{Ty: intT()}))
+		}
+		if q.p(0.5) {
+			ps = append(ps, np("unit", &sProp{Ty: str()}))
+		}
+		return obj(zmLim{}, ps...)
+	}
+	limOptional := func() *sTy {
+		ps := []sNamedProp{np("max", &sProp{Ty: intT()})}
+		if q.p(0.5) {
+			ps = append(ps, np("min", &sProp{Ty: intT()}))
+		}
+		if q.p(0.5) {
+			ps = append(ps, np("unit", &sProp{Ty: str(), EmptyIsDefault: q.p(0.5)}))
+		}
+		return obj(zmLim{}, ps...)
+	}
+	name := func(p *sProp) sNamedProp { p.Ty = str(); return np("name", p) }
+	empty := hx.StrAny()
+	ok := func(fields map[string]string) smExpect { return smExpect{verdict: "ok", fields: fields} }
+	bad := func(path ...string) smExpect { return smExpect{verdict: "err", path: path} }
+	ds := fmt.Sprint(dflt)
+	var t *sTy
+	var cases []smPlantedCase
+	var family string
+	if which < 0 {
+		which = g.R.Intn(smNestedFamilies)
+	}
+	switch which {
+	case 0: // A: pointer above, plain below
+		family = "A: limits behind a pointer above, on a plain field below"
+		t = obj(zmOuterP{}, np("limits", &sProp{Ty: limDefaults()}),
+			np("box", &sProp{Ty: wrap(obj(zmBoxV{}, np("limits", &sProp{Ty: limDefaults()}), np("label", &sProp{Ty: str()})))}),
+			name(&sProp{}))
+		cases = []smPlantedCase{
+			{empty, ok(map[string]string{"Limits": "<nil>", "Box.Limits.Max": ds})},
+			{hx.StrAny(kv("name", hx.Str("n"))), ok(map[string]string{"Limits": "<nil>", "Box.Limits.Max": ds})},
+			{hx.StrAny(kv("box", hx.StrAny())), ok(map[string]string{"Limits": "<nil>", "Box.Limits.Max": ds})},
+			{hx.StrAny(kv("limits", hx.StrAny())), ok(map[string]string{"Limits.Max": ds, "Box.Limits.Max": ds})},
+			{hx.StrAny(kv("box", hx.StrAny(kv("limits", hx.StrAny(kv("max", hx.Int("int64", 0))))))), bad("box", "limits", "max")},
+		}
+	case 1: // A, mirror image: plain above, pointer below
+		family = "A: limits on a plain field above, behind a pointer below"
+		t = obj(zmOuterV{}, np("limits", &sProp{Ty: limDefaults()}),
+			np("box", &sProp{Ty: wrap(obj(zmBoxP{}, np("limits", &sProp{Ty: limDefaults()}), np("label", &sProp{Ty: str()})))}),
+			name(&sProp{}))
+		cases = []smPlantedCase{
+			{empty, ok(map[string]string{"Limits.Max": ds, "Box.Limits": "<nil>"})},
+			{hx.StrAny(kv("name", hx.Str("n"))), ok(map[string]string{"Limits.Max": ds, "Box.Limits": "<nil>"})},
+			{hx.StrAny(kv("box", hx.StrAny())), ok(map[string]string{"Limits.Max": ds, "Box.Limits": "<nil>"})},
+			{hx.StrAny(kv("box", hx.StrAny(kv("limits", hx.StrAny())))), ok(map[string]string{"Limits.Max": ds, "Box.Limits.Max": ds})},
+		}
+	case 2: // A, three levels
+		family = "A: limits behind a pointer, on a plain field, behind a pointer (three levels)"
+		t = obj(zmNest{}, np("limits", &sProp{Ty: limDefaults()}),
+			np("outer", &sProp{Ty: obj(zmOuterV{}, np("limits", &sProp{Ty: limDefaults()}),
+				np("box", &sProp{Ty: obj(zmBoxP{}, np("limits", &sProp{Ty: limDefaults()}))}))}),
+			name(&sProp{}))
+		cases = []smPlantedCase{
+			{empty, ok(map[string]string{"Limits": "<nil>", "Outer.Limits.Max": ds, "Outer.Box.Limits": "<nil>"})},
+			{hx.StrAny(kv("outer", hx.StrAny())), ok(map[string]string{"Limits": "<nil>", "Outer.Limits.Max": ds, "Outer.Box.Limits": "<nil>"})},
+			{hx.StrAny(kv("outer", hx.StrAny(kv("box", hx.StrAny(kv("limits", hx.StrAny())))))),
+				ok(map[string]string{"Limits": "<nil>", "Outer.Limits.Max": ds, "Outer.Box.Limits.Max": ds})},
+		}
+	case 3: // A with the parent's declared default for the block in between
+		family = "A: the block in between comes from its declared default"
+		t = obj(zmOuterP{}, np("limits", &sProp{Ty: limOptional()}),
+			np("box", &sProp{Ty: obj(zmBoxV{}, np("limits", &sProp{Ty: limDefaults()}), np("label", &sProp{Ty: str()})),
+				Default: hx.MkDefault(`{"label":"l"}`)}))
+		cases = []smPlantedCase{
+			{empty, ok(map[string]string{"Limits": "<nil>", "Box.Limits.Max": ds, "Box.Label": "l"})},
+			{hx.StrAny(kv("box", hx.StrAny())), ok(map[string]string{"Box.Limits.Max": ds, "Box.Label": "<nil>"})},
+		}
+	case 4: // B: optional block, required member
+		family = "B: optional block with a required member, left out"
+		t = obj(zmOuterV{}, np("limits", &sProp{Ty: limRequired()}), name(&sProp{}))
+		cases = []smPlantedCase{
+			{empty, ok(map[string]string{"Limits.Max": "0"})},
+			{hx.StrAny(kv("name", hx.Str("n"))), ok(map[string]string{"Limits.Max": "0"})},
+			{hx.StrAny(kv("limits", hx.StrAny())), bad("limits", "max")},
+			{hx.StrAny(kv("limits", hx.StrAny(kv("max", hx.Int("int64", 4))))), ok(map[string]string{"Limits.Max": "4"})},
+		}
+	case 5: // B: required block, optional members
+		family = "B: required block with only optional members, left out"
+		t = obj(zmOuterV{}, np("limits", &sProp{Ty: limOptional(), Required: true}), name(&sProp{}))
+		cases = []smPlantedCase{
+			{empty, bad("limits")},
+			{hx.StrAny(kv("name", hx.Str("n"))), bad("limits")},
+			{hx.StrAny(kv("limits", hx.StrAny())), ok(nil)},
+		}
+	case 6: // B: sibling required_if
+		family = "B: sibling required_if the absent block"
+		t = obj(zmOuterV{}, np("limits", &sProp{Ty: limOptional()}), name(&sProp{RequiredIf: []string{"limits"}}))
+		cases = []smPlantedCase{
+			{empty, ok(map[string]string{"Name": "<nil>"})},
+			{hx.StrAny(kv("limits", hx.StrAny())), bad("name")},
+			{hx.StrAny(kv("limits", hx.StrAny()), kv("name", hx.Str("n"))), ok(nil)},
+		}
+	case 7: // B: sibling required_if_not
+		family = "B: sibling required_if_not the absent block"
+		t = obj(zmOuterV{}, np("limits", &sProp{Ty: limOptional()}), name(&sProp{RequiredIfNot: []string{"limits"}}))
+		cases = []smPlantedCase{
+			{empty, bad("name")},
+			{hx.StrAny(kv("limits", hx.StrAny())), ok(nil)},
+			{hx.StrAny(kv("name", hx.Str("n"))), ok(nil)},
+		}
+	case 8: // B: sibling conflicts
+		family = "B: sibling conflicts with the absent block"
+		t = obj(zmOuterV{}, np("limits", &sProp{Ty: limOptional()}), name(&sProp{Conflicts: []string{"limits"}}))
+		cases = []smPlantedCase{
+			{hx.StrAny(kv("name", hx.Str("n"))), ok(map[string]string{"Name": "n"})},
+			{hx.StrAny(kv("name", hx.Str("n")), kv("limits", hx.StrAny())), bad("name")},
+			{empty, ok(nil)},
+		}
+	case 9: // B: two levels down
+		family = "B: optional block whose by-value sub-block has a required member, both left out"
+		t = obj(zmOuterP{}, np("box", &sProp{Ty: obj(zmBoxV{}, np("limits", &sProp{Ty: limRequired()}), np("label", &sProp{Ty: str()}))}),
+			name(&sProp{}))
+		cases = []smPlantedCase{
+			{empty, ok(map[string]string{"Box.Limits.Max": "0"})},
+			{hx.StrAny(kv("box", hx.StrAny())), ok(map[string]string{"Box.Limits.Max": "0"})},
+			{hx.StrAny(kv("box", hx.StrAny(kv("limits", hx.StrAny())))), bad("box", "limits", "max")},
+		}
+	case 10: // B: the only sub-block is behind a pointer
+		family = "B: optional block with a required member and a sub-block behind a pointer, left out"
+		t = obj(zmOuterV{}, np("box", &sProp{Ty: obj(zmBoxP{}, np("limits", &sProp{Ty: limDefaults()}), np("label", &sProp{Ty: str(), Required: true}))}),
+			name(&sProp{}))
+		cases = []smPlantedCase{
+			{empty, ok(map[string]string{"Box.Limits": "<nil>", "Box.Label": "<nil>"})},
+			{hx.StrAny(kv("box", hx.StrAny())), bad("box", "label")},
+			{hx.StrAny(kv("box", hx.StrAny(kv("label", hx.Str("l"))))), ok(map[string]string{"Box.Limits": "<nil>", "Box.Label": "l"})},
+		}
+	default: // B: required block two levels, and the rule on the block in between
+		family = "B: required sub-block inside an absent optional block; sibling rule on the block"
+		t = obj(zmOuterP{}, np("box", &sProp{Ty: obj(zmBoxV{}, np("limits", &sProp{Ty: limOptional(), Required: true}))}),
+			name(&sProp{RequiredIf: []string{"box"}}))
+		cases = []smPlantedCase{
+			{empty, ok(map[string]string{"Name": "<nil>"})},
+			{hx.StrAny(kv("box", hx.StrAny())), bad("box", "limits")},
+			{hx.StrAny(kv("box", hx.StrAny(kv("limits", hx.StrAny())))), bad("name")},
+		}
+	}
+	s.stats["structmodel:nested-defaults:"+family]++
+	mode := 0
+	if q.p(0.3) {
+		t = &sTy{T: "scope", Inner: t}
+		mode = 1
+	}
+	for _, c := range cases {
+		res, x, emitted := r.emit(t, mode, "SMU", c.raw.ToGo(), c.raw, "path", "nested-defaults: "+family, 3)
+		if !emitted {
+			continue
+		}
+		// the direct expectations
+		var wrong []string
+		if res.R != c.expect.verdict {
+			wrong = append(wrong, fmt.Sprintf("Unserialize: expected %s, got %s %s %v", c.expect.verdict, res.R, res.Msg, res.Path))
+		} else if res.R == "err" && c.expect.path != nil && fmt.Sprint(res.Path) != fmt.Sprint(c.expect.path) {
+			wrong = append(wrong, fmt.Sprintf("Unserialize: expected an error at %v, got one at %v (%s)", c.expect.path, res.Path, res.Msg))
+		}
+		if res.R == "ok" {
+			var names []string
+			for f := range c.expect.fields {
+				names = append(names, f)
+			}
+			sort.Strings(names)
+			for _, f := range names {
+				if got, found := smField(x, f); !found || got != c.expect.fields[f] {
+					wrong = append(wrong, fmt.Sprintf("field %s: expected %s, got %s", f, c.expect.fields[f], got))
+				}
+			}
+		}
+		if len(wrong) > 0 {
+			sj, _ := json.Marshal(t)
+			prop := "C03"
+			if strings.HasPrefix(family, "A") {
+				prop = "C01"
+			}
+			s.finding(Finding{Prop: prop, What: "defaults of nested sub-objects of a struct-mapped object (" + family + "): " + strings.Join(wrong, "; "),
+				Cases: []int{s.nextID}, Input: c.raw, Detail: []string{string(sj)}})
+		}
+		if res.R != "ok" {
+			continue
+		}
+		xe := encAny(x)
+		r.emit(t, mode, "SMV", x, xe, "path", "nested-defaults: "+family, 3)
+		sres, w, emitted := r.emit(t, mode, "SMS", x, xe, "path", "nested-defaults: "+family, 3)
+		if emitted && sres.R == "ok" {
+			r.emit(t, mode, "SMU", w, hx.Enc(w), "path", "nested-defaults: "+family, 3)
+		}
+	}
+}
+
+// ---------------------------------------------------------------------------------------------
 // replay
 
 func smReplay(s *sink, path string) {
@@ -2347,8 +2667,14 @@ func structModel(a Args) {
 	g := hx.NewGen(a.Seed)
 	q := &smGen{g: g, stats: s.stats}
 	smFixed(s, g, q)
+	for f := 0; f < smNestedFamilies; f++ {
+		groupNestedDefaults(s, g, q, f) // every family once on every run, more of them at random below
+	}
 	for i := 0; i < a.N; i++ {
 		groupStructModel(s, g, q)
+		if q.p(0.2) {
+			groupNestedDefaults(s, g, q, -1)
+		}
 	}
 	writeStats(a.Out, s, g)
 }
